@@ -43,7 +43,22 @@ KINDS = ['rand_bytes', 'trunc_pickle', 'flip_pickle', 'pickle_nondict',
 def gen(rng, tier):
     mode = rng.choice(['async', 'thread'])
     cfg = {'mode': mode, 'nhosts': rng.choice([1, 2]),
-           'lag': rng.randrange(2)}
+           'lag': rng.randrange(2),
+           'backend': 'redis' if rng.random() < 0.2 else 'bus'}
+    if cfg['backend'] == 'redis':
+        items = []
+        for _ in range(rng.randrange(3, 10)):
+            k = rng.random()
+            if k < 0.4:
+                items.append(['outage', rng.choice([0.5, 3, 10, 40, 100,
+                                                    300])])
+            elif k < 0.6:
+                items.append(['emit_during_outage', rng.choice([0.5, 5])])
+            elif k < 0.8:
+                items.append(['sentinel', 0])
+            else:
+                items.append(['wait', rng.choice([1, 30, 90])])
+        return {'cfg': cfg, 'items': items}
     items = []
     for _ in range(rng.randrange(8, 30)):
         items.append([rng.choice(KINDS), rng.randrange(10 ** 6)])
@@ -238,7 +253,106 @@ async def _ainit(m):
     m.initialize()
 
 
+def _run_redis(case, cfg, w):
+    """Extension: the bundled Redis back ends over a fake redis client whose
+    connection fails according to the fault sequence; their retry loops and
+    back-off sleeps run in virtual time."""
+    import socketio
+    from sim.fakeredis import (FakeBroker, FakeRedisModule,
+                               FakeAioRedisModule, RedisError)
+    v = V(PROP)
+    rec = w.rec
+    is_async = w.mode == 'async'
+    broker = FakeBroker(w)
+    if is_async:
+        w.patches.set('socketio.async_redis_manager', 'aioredis',
+                      FakeAioRedisModule(broker))
+        w.patches.set('socketio.async_redis_manager', 'RedisError',
+                      RedisError)
+        mgr = socketio.AsyncRedisManager('redis://sim')
+    else:
+        w.patches.set('socketio.redis_manager', 'redis',
+                      FakeRedisModule(broker, w.kernel))
+        mgr = socketio.RedisManager('redis://sim')
+    srv = w.add_server('h0', manager=mgr, namespaces=['/'])
+    sc = Scene(w)
+    sc.open('sent', server='h0')     # first connection initialises the manager
+    sid = sc.connect('sent', '/')
+    w.settle()
+    sentinels = []
+    n = 0
+    last_outage_end = None
+    nontrivial = False
+
+    def send_sentinel(where):
+        nonlocal n
+        n += 1
+        tag = 'S%d' % n
+        sentinels.append(tag)
+        broker.publish('socketio', pickle.dumps(valid_emit(tag, sid)))
+        w.settle()
+        got = [r for r in sc.peers['sent'].rx
+               if r['pkt'].base == sio.EVENT and r['pkt'].data == ['s', tag]]
+        if len(got) != 1:
+            v.add('sentinel_delivery', '%s: sentinel %s delivered %d times '
+                  '(%d live subscriptions)' % (where, tag, len(got),
+                                               len(broker.subs)),
+                  'redis:got%d' % min(len(got), 2))
+
+    send_sentinel('before any fault')
+    for i, (kind, arg) in enumerate(case['items']):
+        where = 'item %d %s' % (i, [kind, arg])
+        if kind == 'outage':
+            nontrivial = True
+            broker.outage(True)
+            w.advance(arg)
+            broker.outage(False)
+            # once the faults stop the listener is back within its current
+            # back-off (capped at 60 s)
+            w.advance(61.0)
+            send_sentinel(where + ' (61 s after the outage ended)')
+        elif kind == 'emit_during_outage':
+            nontrivial = True
+            broker.outage(True)
+            w.advance(arg)
+            tag = 'L%d' % i
+            h = w.api('h0', 'emit', 's', tag, to=sid)
+            w.settle()
+            if h.exc is not None:
+                v.add('emit_raised_during_outage', '%s: %r' % (where, h.exc))
+            got = [r for r in sc.peers['sent'].rx
+                   if r['pkt'].data == ['s', tag]]
+            if len(got) != 1:
+                v.add('local_emit_during_outage', '%s: local client '
+                      'received %d copies' % (where, len(got)))
+            broker.outage(False)
+            w.advance(61.0)
+            send_sentinel(where + ' (after recovery)')
+        elif kind == 'sentinel':
+            send_sentinel(where)
+        elif kind == 'wait':
+            w.advance(arg)
+    for o in w.ops:
+        if o.done and o.exc is not None:
+            v.add('api_raised', '%s: %r' % (o.label, o.exc))
+    if w.mode == 'thread':
+        from sim.world import exc_site
+        for name, e in w.kernel.thread_errors:
+            v.add('thread_raised', '%s: %r in %s' % (name, e, exc_site(e)),
+                  '%s@%s' % (type(e).__name__, exc_site(e)))
+    stats = {'faults': {k: n2 for k, n2 in rec.counters.items()
+                        if k.startswith('fault.')},
+             'sentinels': len(sentinels)}
+    return {'violations': v.items, 'digest': rec.digest.hex(),
+            'nontrivial': nontrivial, 'stats': stats,
+            'sim_time': w.now() - 1_700_000_000.0,
+            'cfg': '%s/redis' % cfg['mode'],
+            'choices': w.choices.dump(), 'log': rec.dump_log()}
+
+
 def _run(case, cfg, w):
+    if cfg.get('backend') == 'redis':
+        return _run_redis(case, cfg, w)
     v = V(PROP)
     rec = w.rec
     is_async = w.mode == 'async'
